@@ -200,6 +200,34 @@ func runAssembler(c reqCase) ([]string, error) {
 			return labels, fmt.Errorf("after request %x (reply %x) a following valid request %x was answered with %x, want %x: leftovers disturbed it", []byte(c.Frame), out, follow, out2, want)
 		}
 	}
+	if !panicked && c.Handler != "panic" {
+		// pipelined: the same frame followed by two valid requests, all in ONE read. Every reply must still be a
+		// well-formed ADU addressed to its own request, in order.
+		byUnit := c.Frame[6] + 1
+		f2 := spec.EncodeRequest(spec.TCP, spec.Req{FC: 3, Unit: byUnit, Tx: 0x2222, Addr: 9, Qty: 8})
+		f3 := spec.EncodeRequest(spec.TCP, spec.Req{FC: 4, Unit: byUnit, Tx: 0x3333, Addr: 5, Qty: 1})
+		router := &routing{main: handlerFor(c), sane: &srv.Handler{Dev: device.New(c.DevSeed)}, saneUnit: byUnit}
+		asm2 := &server.ModbusTCPAssembler{Handler: router}
+		all := append(append(append([]byte(nil), c.Frame...), f2...), f3...)
+		var out3 []byte
+		var p3 interface{}
+		func() {
+			defer func() { p3 = recover() }()
+			out3, _ = asm2.ReceiveRead(context.Background(), all, len(all))
+		}()
+		if p3 != nil {
+			return labels, fmt.Errorf("assembler panicked on three pipelined requests starting with %x: %v", []byte(c.Frame), p3)
+		}
+		ref := device.New(c.DevSeed)
+		want2, want3 := ref.Answer(spec.TCP, f2), ref.Answer(spec.TCP, f3)
+		tail := append(append([]byte(nil), want2...), want3...)
+		if len(out3) < len(tail) || !bytes.Equal(out3[len(out3)-len(tail):], tail) {
+			return labels, fmt.Errorf("three requests in one read (%x | %x | %x): the server sent %x, which does not end with the replies %x | %x to the second and third request", []byte(c.Frame), f2, f3, out3, want2, want3)
+		}
+		if first := out3[:len(out3)-len(tail)]; !bytes.Equal(first, out) {
+			return labels, fmt.Errorf("request %x answered with %x when alone but with %x when followed by two more requests in the same read", []byte(c.Frame), out, first)
+		}
+	}
 	return labels, nil
 }
 
